@@ -147,6 +147,14 @@ func (p *Program) Extract(s Site) (val string, pos string, fn *ssa.Function, err
 			ctb = p.TB(c.Parent())
 		}
 		return short(ctb.Term(args[k]).String()), p.pos(instrPos(c)), fn, nil
+	case "emits":
+		// emits:<index of the writer parameter>: the emission grammar of a serialiser
+		k, _ := strconv.Atoi(parts[1])
+		g, e := p.emissionGrammar(fn, k)
+		if e != nil {
+			return "", "", fn, e
+		}
+		return g, p.pos(fn.Pos()), fn, nil
 	case "facts":
 		if strings.HasPrefix(parts[1], "errret#") {
 			// facts at the n-th (1-based) return that carries a non-nil error
